@@ -206,6 +206,31 @@ def l2cap_sig_seeds(chan: str) -> list[Seed]:
     return S
 
 
+def le_coc_seeds(rx_cid: int, mtu: int, mps: int) -> list[Seed]:
+    """K-frames (LE credit-based flow control mode, Vol 3 Part A 3.4): the first frame of an SDU starts
+    with the 2-octet SDU length; plus the credit packets that refer to the channel."""
+    S = []
+
+    def a(name, data, lens=((0, 2, 'le'),), chan='dyn', op=None):
+        S.append(Seed('lecoc.' + name, chan, data, tuple(lens), op))
+
+    a('sdu_complete', struct.pack('<H', 4) + b'abcd')
+    a('sdu_first_of_two', struct.pack('<H', 8) + b'abcd')
+    a('sdu_continuation', b'efgh', lens=())
+    a('sdu_len_0', struct.pack('<H', 0))
+    a('sdu_len_1', struct.pack('<H', 1) + b'a')
+    a('sdu_len_mtu', struct.pack('<H', mtu) + b'a' * 8)
+    a('sdu_len_over_mtu', struct.pack('<H', mtu + 1) + b'a' * 8)
+    a('sdu_len_max', struct.pack('<H', 0xFFFF) + b'a' * 8)
+    a('pdu_over_mps', struct.pack('<H', mps + 8) + b'a' * (mps + 8))
+    a('sdu_overflow', struct.pack('<H', 2) + b'abcd')
+    cid = struct.pack('<H', rx_cid)
+    for name, n in (('credit_1', 1), ('credit_0', 0), ('credit_max', 0xFFFF), ('credit_8000', 0x8000)):
+        a(name, bytes([0x16, 0x31, 4, 0]) + cid + struct.pack('<H', n), lens=((2, 2, 'le'),), chan='lesig', op=0)
+    a('credit_unknown_cid', bytes([0x16, 0x31, 4, 0]) + b'\x7f\x00\x01\x00', lens=((2, 2, 'le'),), chan='lesig', op=0)
+    return S
+
+
 L2CAP_CODES = {0x01, 0x02, 0x03, 0x04, 0x05, 0x06, 0x07, 0x08, 0x09, 0x0A, 0x0B, 0x12, 0x13, 0x14, 0x15, 0x16, 0x17, 0x18, 0x19, 0x1A}
 
 
@@ -219,7 +244,7 @@ def sdp_nested(depth: int, consistent: bool, size_bytes: int = 1) -> bytes:
     inner = h('19 0100')
     if not consistent:
         # every level claims the largest size its descriptor can express
-        return bytes([desc]) * 0 + b''.join(bytes([desc]) + b'\xff' * size_bytes for _ in range(depth)) + inner
+        return b''.join(bytes([desc]) + b'\xff' * size_bytes for _ in range(depth)) + inner
     out = inner
     parts = []
     n = len(out)
@@ -607,8 +632,11 @@ def short_strings(chan: str, full2: bool) -> Iterable[tuple]:
 # independent "is this a valid disconnect" decoders
 # ---------------------------------------------------------------------------
 def hci_is_disconnection_complete(pkt: bytes, handle: int) -> bool:
-    """HCI Disconnection Complete event (Vol 4 Part E 7.7.5): 04 05 04 status handle(2) reason, status 0."""
-    return len(pkt) == 7 and pkt[0] == 0x04 and pkt[1] == 0x05 and pkt[2] == 0x04 and pkt[3] == 0x00 and (pkt[4] | (pkt[5] << 8)) & 0x0FFF == handle & 0x0FFF
+    """HCI Disconnection Complete event (Vol 4 Part E 7.7.5): 04 05 len status handle(2) reason with
+    status 0 and the live handle.  Lenient on the parameter-length octet and on trailing octets: at this
+    seam the packet is already framed, so a controller that says "handle H is disconnected" followed by
+    junk has still said it."""
+    return len(pkt) >= 7 and pkt[0] == 0x04 and pkt[1] == 0x05 and pkt[3] == 0x00 and (pkt[4] | (pkt[5] << 8)) & 0x0FFF == handle & 0x0FFF
 
 
 def rfcomm_is_disconnect(frame: bytes, live_dlci: int) -> bool:
